@@ -326,6 +326,11 @@ func runGossip(s *sim.Sim, o gopts) {
 						wr.removed = true
 						w.removedAt[wr.id] = s.Elapsed()
 						s.Probe("entry-unregistered")
+						if raw, _ := nd.raw(ringKey).(*ring.Desc); raw != nil && nd.alive && nd.incarnation == inc {
+							if e, ok := raw.Ingesters[wr.id]; !ok || e.State != ring.LEFT || e.Timestamp < ts {
+								s.Fail("tombstone-not-stamped-with-removal-time", "instance", "node %s unregistered %s at %d; it now stores %s (present=%v)", nd.name, wr.id, ts, canonInst(wr.id, e), ok)
+							}
+						}
 					}
 					if nd.alive && nd.incarnation == inc {
 						acked[wr.id], ackNode[wr.id], ackInc[wr.id] = ts, nd.idx, inc
@@ -392,9 +397,11 @@ func runGossip(s *sim.Sim, o gopts) {
 			var key string
 			declined := false
 			removedOwner, removedPart := false, false
+			var fUnix int64
 			err := nd.partCl.CAS(ctx, partKey, func(in interface{}) (interface{}, bool, error) {
 				d := ring.GetOrCreatePartitionRingDesc(in)
 				now := time.Now()
+				fUnix = now.Unix()
 				declined = false
 				ts, key = 0, ""
 				removedOwner, removedPart = false, false
@@ -467,6 +474,17 @@ func runGossip(s *sim.Sim, o gopts) {
 				if err == nil && !declined && removedPart {
 					w.removedAt[fmt.Sprintf("p%d", ed.id)] = s.Elapsed()
 					s.Probe("partition-removed")
+				}
+				// the tombstone left by a local removal carries the time of the removal, not the entry's last update
+				if err == nil && !declined && (removedOwner || removedPart) && nd.alive && nd.incarnation == inc {
+					if praw, _ := nd.raw(partKey).(*ring.PartitionRingDesc); praw != nil {
+						if ow, ok := praw.Owners[ownerID]; removedOwner && (!ok || ow.State != ring.OwnerDeleted || ow.UpdatedTimestamp < fUnix) {
+							s.Fail("tombstone-not-stamped-with-removal-time", "owner", "node %s removed owner %s at %d; it now stores %+v (present=%v)", nd.name, ownerID, fUnix, ow, ok)
+						}
+						if p, ok := praw.Partitions[int32(ed.id)]; removedPart && (!ok || p.State != ring.PartitionDeleted || p.StateTimestamp < fUnix) {
+							s.Fail("tombstone-not-stamped-with-removal-time", "partition", "node %s removed partition %d at %d; it now stores state=%v ts=%d (present=%v)", nd.name, ed.id, fUnix, p.State, p.StateTimestamp, ok)
+						}
+					}
 				}
 				if err == nil && !declined && key != "" {
 					if strings.HasPrefix(key, "p") && ts > ed.lastTS {
